@@ -38,6 +38,7 @@ def main():
         res = {'exit': p.returncode, 'tier': tier, 'lines': viol[:12]}
         json.dump(res, open(os.path.join(d, 'check_result.json'), 'w'), indent=1)
         status = ({0: 'QUIET (as it must be)', 1: 'FALSE ALARM', 2: 'UNDECIDED'} if benign else {1: 'CAUGHT', 0: 'MISSED', 2: 'UNDECIDED'}).get(p.returncode, 'rc=%s' % p.returncode)
+        if p.returncode == 1 and not any(l.startswith('VIOLATION') for l in viol): status = 'CHECK CRASHED (exit 1 without a VIOLATION line): ' + p.stderr[-300:].replace('\n', ' | ')
         print('%-40s %s: %s %s' % (n, pid, status, (viol[1].strip()[:150] if len(viol) > 1 else (viol[0][:150] if viol else ''))))
         if p.returncode != (0 if benign else 1): rc_all = 1
     return rc_all
